@@ -156,3 +156,33 @@ Theorem C10_equal_text_sets_match_alike a b p A B : SetsModel.SpecifierSet a p =
   (forall arg texts, SetsModel.set_filter A arg texts = SetsModel.set_filter B arg texts) /\ SetsModel.set_pre A = SetsModel.set_pre B.
 Proof. exact (SetsEqual.equal_text_sets_behave_alike a b p A B). Qed.
 Print Assumptions C10_equal_text_sets_match_alike.
+
+(* ---------------- equal => same behaviour, further (proved with the domain models in the improvement round) ---------------- *)
+Require SetsFilterMore ReqSetsLinkP ReqMarkerEqP.
+(* equal specifiers filter alike (not only contains) *)
+Theorem C10_equal_specifiers_filter_alike a b sp sp' o arg texts : Specifier a = Some sp -> Specifier b = Some sp' -> s_eq sp sp' ->
+  SetsModel.spec_filter sp o arg texts = SetsModel.spec_filter sp' o arg texts.
+Proof. exact (SetsFilterMore.spec_filter_equal_keys a b sp sp' o arg texts). Qed.
+Print Assumptions C10_equal_specifiers_filter_alike.
+(* equal requirements have specifier sets that are equal AS SETS OF THE SETS DOMAIN (the model C05/C06 are about) and match, filter
+   and report .prereleases alike ... *)
+Theorem C10_equal_requirements_sets_alike sa sb a b : ReqModel.Requirement sa = ReqModel.RqOk a -> ReqModel.Requirement sb = ReqModel.RqOk b ->
+  ReqModel.req_eq a b = true ->
+  let A := ReqSetsLinkP.rq_sset (ReqModel.q_specs a) in let B := ReqSetsLinkP.rq_sset (ReqModel.q_specs b) in
+  SetsModel.set_eqb A B = true /\
+  (forall arg inst item, SetsModel.set_contains A arg inst item = SetsModel.set_contains B arg inst item) /\
+  (forall arg texts, SetsModel.set_filter A arg texts = SetsModel.set_filter B arg texts) /\ SetsModel.set_pre A = SetsModel.set_pre B.
+Proof.
+  intros Ha Hb E. destruct (ReqSetsLinkP.equal_requirements_sets_alike sa sb a b Ha Hb E) as (H1 & _ & _ & H2 & H3 & H4). cbv zeta. auto.
+Qed.
+Print Assumptions C10_equal_requirements_sets_alike.
+(* ... and markers that evaluate alike in every environment *)
+Theorem C10_equal_requirements_markers_alike sa sb a b : ReqModel.Requirement sa = ReqModel.RqOk a -> ReqModel.Requirement sb = ReqModel.RqOk b ->
+  ReqModel.req_eq a b = true ->
+  match ReqModel.q_marker a, ReqModel.q_marker b with
+  | Some ma, Some mb => forall defaults ov, MkEval.evaluate ma defaults ov = MkEval.evaluate mb defaults ov
+  | None, None => True
+  | _, _ => False
+  end.
+Proof. exact (ReqMarkerEqP.equal_requirements_markers_alike sa sb a b). Qed.
+Print Assumptions C10_equal_requirements_markers_alike.
